@@ -107,7 +107,9 @@ ExecPic(pic, tb, embedded, off, idx, dig(_, _, _)) ==
   LET name == IF embedded THEN READPICTURE ELSE ALBUMART
       size == IF embedded THEN pic.embedded ELSE pic.file
       ack  == IF embedded THEN pic.embedded_ack ELSE pic.file_ack IN
-  IF ack # 0 THEN [ok |-> FALSE, ls |-> <<AckL(ack, idx, IF ack = 5 THEN <<>> ELSE name, <<115,99,114,105,112,116,101,100,32,101,114,114,111,114>>)>>]
+  \* (pic.ackp: the failing command prints `size` / `type` lines before its ACK - an error after partial output is still an error)
+  IF ack # 0 THEN [ok |-> FALSE, ls |-> (IF pic.ackp /\ ack # 5 THEN <<Fld(SIZE, Dec(IF size < 0 THEN 0 ELSE size))>> \o (IF embedded /\ pic.hasMime THEN <<Fld(TYPE, pic.mime)>> ELSE <<>>) ELSE <<>>)
+                                        \o <<AckL(ack, idx, IF ack = 5 THEN <<>> ELSE name, <<115,99,114,105,112,116,101,100,32,101,114,114,111,114>>)>>]
   ELSE IF size < 0 THEN [ok |-> TRUE, ls |-> <<>>]         \* no picture from this source: an empty reply
   ELSE IF off > size THEN [ok |-> FALSE, ls |-> <<AckL(2, idx, name, <<66,97,100,32,102,105,108,101,32,111,102,102,115,101,116>>)>>]
   ELSE LET n == ChunkLen(pic, off, size) IN
